@@ -144,6 +144,16 @@ def witness_crate(d: Decl, extra_inputs=()):
                        else 'format!("Ok({:?})", %s::sanitize(v))' % R))
         body.append('        report("FromStr", &format!("{:?}", s), setting, format!("{:?}", %s::from_str(&s).map(|v| v.into_inner())), expected_fs, n);\n' % S)
         body.append('    }\n')
+    if 'Deserialize' in d.derives and d.family in ('int', 'float', 'string'):
+        # C04: JSON documents carrying the candidate (and wrongly typed ones)
+        body.append('    if let Ok(doc) = serde_json::to_string(&x) { if doc != "null" {\n')
+        body.append('        let expected_de = %s;\n' % (('match %s::try_new(x.clone()) { Ok(i) => format!("Ok({:?})", i), Err(_) => "Err".to_string() }' % R) if has_v else 'format!("Ok({:?})", %s::sanitize(x.clone()))' % R))
+        body.append('        for (tag, d2) in [("", doc.clone()), (" in Vec", format!("[{}]", doc)), (" in Option", doc.clone())] {\n')
+        body.append('            let real_de = if tag == " in Vec" { match serde_json::from_str::<Vec<%s>>(&d2) { Ok(mut v) => format!("Ok({:?})", v.pop().unwrap().into_inner()), Err(_) => "Err".to_string() } } '
+                    'else if tag == " in Option" { match serde_json::from_str::<Option<%s>>(&d2) { Ok(Some(v)) => format!("Ok({:?})", v.into_inner()), _ => "Err".to_string() } } '
+                    'else { match serde_json::from_str::<%s>(&d2) { Ok(v) => format!("Ok({:?})", v.into_inner()), Err(_) => "Err".to_string() } };\n' % (S, S, S))
+        body.append('            report("Deserialize", &format!("JSON {}{}", d2, tag), setting, real_de, expected_de.clone(), n);\n        }\n    } }\n')
+        body.append('    for bad in ["null", "[]", "{}", "true"] { report("Deserialize", &format!("JSON {}", bad), setting, if serde_json::from_str::<%s>(bad).is_ok() { "Ok".to_string() } else { "Err".to_string() }, "Err".to_string(), n); }\n' % S)
     # views on the obtained value
     ctor = '%s::try_new(x.clone()).ok()' % S if has_v else 'Some(%s::new(x.clone()))' % S
     body.append('    if let Some(v) = %s {\n' % ctor)
@@ -166,6 +176,12 @@ def witness_crate(d: Decl, extra_inputs=()):
             body.append('        { let i2 = %s::try_new(x.clone()).ok().unwrap().into_inner(); report("canonical", label, setting, format!("{:?}", %s::try_new(i2.clone()).map(|w| w.into_inner())), format!("Ok({:?})", i2), n); }\n' % (S, S))
         else:
             body.append('        { let i2 = %s::new(x.clone()).into_inner(); report("canonical", label, setting, format!("{:?}", %s::new(i2.clone()).into_inner()), format!("{:?}", i2), n); }\n' % (S, S))
+    if 'Serialize' in d.derives and d.family in ('int', 'float', 'string'):
+        body.append('        { let a = serde_json::to_string(&v).map_err(|_| ()); let b = serde_json::to_string(&%s::sanitize(x.clone())).map_err(|_| ()); report("Serialize", label, setting, format!("{:?}", a), format!("{:?}", b), n);\n' % R)
+        if 'Deserialize' in d.derives:
+            body.append('          if let Ok(doc) = a { if doc != "null" { let back = serde_json::from_str::<%s>(&doc).map(|w| w.into_inner()).map_err(|_| ()); report("RoundTrip", &format!("{} as JSON {}", label, doc), setting, format!("{:?}", back), format!("Ok({})", inner), n); } } }\n' % S)
+        else:
+            body.append('        }\n')
     # canonical chains (C11) through the other derived entry points: re-entering with the stored value
     if d.family == 'string' and 'FromStr' in d.derives:
         body.append('        { let i2 = %s; let e = format!("Ok({:?})", i2); report("canonical", &format!("{} via FromStr", label), setting, format!("{:?}", %s::from_str(i2.as_str()).map(|w| w.into_inner())), e, n); }\n'
@@ -255,8 +271,8 @@ def c16_witnesses(d, probes):
     from the message text) disagrees with the real constructor's verdict."""
     import re
     from .c16 import stated_relation
-    if len([v for v in d.validators if v.kind != 'not_empty']) != 1 or d.family == 'any':
-        return []
+    if len([v for v in d.validators if v.kind != 'not_empty']) != 1 or d.family == 'any' or d.sanitizers:
+        return []   # the message speaks about the sanitized value; only sanitizer-free single-bound declarations are probed
     msgs = {}
     for p in probes:
         if p['verdict'] != 'Ok' and p['message']:
